@@ -21,6 +21,12 @@ func main() {
 		fmt.Print(c08.DebugCase(seed, idx, len(os.Args) < 5, ""))
 		return
 	}
+	if len(os.Args) > 1 && os.Args[1] == "bench" {
+		seed, _ := strconv.ParseUint(os.Args[2], 10, 64)
+		n, _ := strconv.Atoi(os.Args[3])
+		fmt.Print(c08.DebugBench(seed, n))
+		return
+	}
 	if len(os.Args) > 1 && os.Args[1] == "input" {
 		fmt.Print(c08.DebugCase(0, 0, len(os.Args) < 4, os.Args[2]))
 		return
